@@ -1558,14 +1558,15 @@ Fixpoint read_loop (fuel : nat) (f : decompressor) (plen : N) : decompressor * l
 Definition dRead (f : decompressor) (plen : N) : decompressor * list N * rres :=
   read_loop big_fuel f plen.
 
-Fixpoint erun_loop (f : decompressor) (reads : list N) : list (list N * rres) * decompressor :=
+Fixpoint erun_loop (f : decompressor) (reads : list N) (acc : list (list N * rres))
+  : list (list N * rres) * decompressor :=
   match reads with
-  | [] => ([], f)
+  | [] => (frev acc, f)
   | p :: rest =>
     let '(f, bytes, r) := dRead f p in
     match r with
-    | ROk => let '(l, f) := erun_loop f rest in ((bytes, r) :: l, f)
-    | _ => ([(bytes, r)], f)
+    | ROk => erun_loop f rest ((bytes, r) :: acc)
+    | _ => (frev ((bytes, r) :: acc), f)
     end
   end.
 
@@ -1573,7 +1574,7 @@ Fixpoint erun_loop (f : decompressor) (reads : list N) : list (list N * rres) * 
    (sum of the Discards) at the end *)
 Definition erun_ext (bufsize : N) (cs : list (list N)) (t : terminal) (reads : list N)
   : list (list N * rres) * N :=
-  let '(l, f) := erun_loop (newReader bufsize cs t) reads in
+  let '(l, f) := erun_loop (newReader bufsize cs t) reads [] in
   (l, consumed (rBuf f)).
 
 Definition erun (bufsize : N) (cs : list (list N)) (t : terminal) (reads : list N)
